@@ -14,12 +14,52 @@ fn gen(ctx: &Ctx, sink: &mut dyn FnMut(String)) {
         let seed = ctx.seed.wrapping_mul(9_000_011).wrapping_add(i);
         sink(format!("c10 hist {seed} {}", 5 + i % 30));
     }
+    // every language-dependent literal kind in every syntactic context, in every configuration
+    for (a, _) in LANGUAGES.iter().enumerate() {
+        for (b, _) in LOCALES.iter().enumerate() {
+            for k in 0..literal_formulas().len() {
+                sink(format!("c10 lit {a} {b} {k}"));
+            }
+        }
+    }
     // every ordered pair of configurations on a fixed workbook
     for (a, _) in LANGUAGES.iter().enumerate() {
         for (b, _) in LOCALES.iter().enumerate() {
             sink(format!("c10 pair {} {a} {b}", ctx.seed));
         }
     }
+}
+
+/// the 12 error literals as typed in English
+const ERRORS_EN: [&str; 12] = ["#REF!", "#NAME?", "#VALUE!", "#DIV/0!", "#N/A", "#NUM!", "#ERROR!", "#N/IMPL!", "#SPILL!", "#CALC!", "#CIRC!", "#NULL!"];
+
+/// English formulas that contain every literal kind whose spelling depends on the language or the
+/// locale (error literals, booleans, decimal numbers, argument and array separators, function names),
+/// each directly followed by every kind of token (`,` `)` operator, comparison, `&`, array separators,
+/// end of text)
+fn literal_formulas() -> Vec<String> {
+    let mut v = vec![];
+    for e in ERRORS_EN {
+        v.push(format!("=IF(B1=1,{e},B1+2)"));
+        v.push(format!("={e}+1"));
+        v.push(format!("=1+{e}"));
+        v.push(format!("=IFERROR({e},1.5)&\"x\""));
+        v.push(format!("=SUM(2.5,{e})"));
+        v.push(format!("=ISERROR({e})"));
+        v.push(format!("={e}=1"));
+        v.push(format!("=IF({e}<>{e},TRUE,FALSE)"));
+        v.push(format!("=SUM({{1.5,{e};{e},3}})"));
+        v.push(format!("=-{e}%"));
+        v.push(format!("={e}"));
+    }
+    for t in [
+        "=IF(TRUE,1.5,FALSE)", "=AND(TRUE,FALSE)", "=SUM({TRUE,FALSE;1.5,2.25})", "=TRUE+1", "=FALSE&\"x\"", "=TRUE=FALSE",
+        "=1.5+2.25", "=SUM(1.5,2.5,3)", "=SUM({1.5,2.5;3.5,4.5})", "=ROUND(2.567,1)", "=1.5E+3*2", "=1,5", "=MAX(1.5;2)",
+        "=IF(A1>1.5,\"a,b\",\"c;d\")", "=SUM(A1:B2,C3)", "=SUM((A1:B2,C3:D4))",
+    ] {
+        v.push(t.to_string());
+    }
+    v
 }
 
 /// stored (internal) texts: per sheet the formula table, and the defined-name formulas
@@ -197,6 +237,39 @@ fn eval(req: &str) -> ImplOut {
             let conf = format!("({},{})", m.get_language(), m.get_locale());
             retype_all(&mut m, &mut out, &conf);
         }
+    } else if f[1] == "lit" {
+        // one English formula with language/locale-dependent literals: typed in en/en, shown in
+        // (language a, locale b), typed back there
+        let (a, b, k): (usize, usize, usize) = (f[2].parse().unwrap(), f[3].parse().unwrap(), f[4].parse().unwrap());
+        let text = literal_formulas()[k].clone();
+        let _ = m.set_user_input(0, 1, 1, "2");
+        let _ = m.set_user_input(0, 1, 2, "1");
+        if m.set_user_input(0, 3, 3, &text).is_err() {
+            out.ans = "rejected-in-en".into();
+            return out.trivial();
+        }
+        m.evaluate();
+        let s0 = stored(m.get_model());
+        let c0 = cells(m.get_model());
+        let parsed_in_en = !c0.iter().any(|c| c.contains("ei: ERROR"));
+        let ok = m.set_language(LANGUAGES[a]).is_ok() && m.set_locale(LOCALES[b]).is_ok();
+        m.evaluate();
+        switches = 2;
+        out = out.tag(if parsed_in_en { "lit:parsed" } else { "lit:not-a-formula-in-en" });
+        if !ok {
+            out = out.fail("c10:switch:rejected", &format!("{} {}", LANGUAGES[a], LOCALES[b]));
+        } else if s0 != stored(m.get_model()) {
+            out = out.fail("c10:switch:stored-text-changed", &first_diff_vec(&s0, &stored(m.get_model())));
+        } else if c0 != cells(m.get_model()) {
+            out = out.fail("c10:switch:value-changed", &format!("`{text}`: {}", first_diff_vec(&c0, &cells(m.get_model()))));
+        } else if parsed_in_en {
+            let conf = format!("({},{})", LANGUAGES[a], LOCALES[b]);
+            retype_all(&mut m, &mut out, &conf);
+            m.evaluate();
+            if out.oracle.is_empty() && c0 != cells(m.get_model()) {
+                out = out.fail("c10:retype:value-changed", &format!("{conf} `{text}`: {}", first_diff_vec(&c0, &cells(m.get_model()))));
+            }
+        }
     } else {
         // pair: a fixed workbook, shown and re-entered under (language a, locale b)
         let seed: u64 = f[2].parse().unwrap();
@@ -237,7 +310,7 @@ fn eval(req: &str) -> ImplOut {
 pub fn suites() -> Vec<Suite> {
     vec![Suite {
         name: "c10-switch",
-        rule: "random user-model histories with set_language / set_locale interleaved (5 languages × 6 locales), plus every (language, locale) pair on a fixed workbook: stored formula texts and defined-name formulas byte-identical across each switch, every stored cell value unchanged, and every displayed formula typed back in the active configuration leaves its stored form unchanged; non-trivial = at least one switch happened",
+        rule: "random user-model histories with set_language / set_locale interleaved (5 languages × 6 locales), plus every (language, locale) pair on a fixed workbook, plus, in every pair, ~150 English formulas placing each language- or locale-dependent literal (12 error literals, booleans, decimal numbers, argument/array separators, function names) before every kind of following token: stored formula texts and defined-name formulas byte-identical across each switch, every stored cell value unchanged, and every displayed formula typed back in the active configuration leaves its stored form unchanged; non-trivial = at least one switch happened",
         modelled: false,
         gen,
         eval,
